@@ -64,8 +64,8 @@ def _conf(idx, rng):
     return pri_crc, pay_crc, exts
 
 
-def make_bundle(pri_crc, pay_crc, exts, plen, flags=0, frag=None, dest='dtn://far/app', seq=0, clockless=False):
-    pri = dict(version=7, flags=flags, crc_type=pri_crc, dest=dest, src='dtn://orig/app', report_to='dtn:none',
+def make_bundle(pri_crc, pay_crc, exts, plen, flags=0, frag=None, dest='dtn://far/app', seq=0, clockless=False, src='dtn://orig/app'):
+    pri = dict(version=7, flags=flags, crc_type=pri_crc, dest=dest, src=src, report_to='dtn:none',
                create_time=820540000000, seqno=seq, lifetime=3600000, frag_offset=None, total_adu_len=None, crc=None)
     if clockless:
         # a source without a clock: creation time 0 (and here also lifetime 0), the age travels in a Bundle Age block
@@ -93,6 +93,9 @@ def do_send(bundle, mtu, origin, security=False):
         _enable_mac0(node)
     err = None
     if origin == 'local':
+        if bundle.get('_unnumbered'):
+            # the application left the numbering of its extension blocks to the agent
+            bundle = dict(bundle, blocks=[dict(blk, num=None) if blk['type'] != 1 else blk for blk in bundle['blocks']])
         real = gen.to_real(bundle, typed=False)
         try:
             node.send(BundleContainer(real))
@@ -308,6 +311,15 @@ def run_case(case):
             one(make_bundle(pri_crc, pay_crc, exts, 200, flags=bpv7.FLAG_NO_FRAGMENT, seq=901), 120, origin)
             one(make_bundle(pri_crc, pay_crc, exts, 200, frag=(10, 500), seq=902), 120, origin)
             one(make_bundle(pri_crc, pay_crc, exts, 50, seq=903), None, origin)
+        if len(exts) >= 1:
+            # locally built bundles whose extension blocks carry no number yet, with and without a security block added on the way
+            for plen in (60, 200):
+                bundle = dict(make_bundle(pri_crc, pay_crc, exts, plen, seq=plen + 3000), _unnumbered=True)
+                full = len(bpv7.encode(bundle))
+                for mtu in (full + 100, full - 10, full - plen + 20):
+                    obs['unnumbered_sends'] = obs.get('unnumbered_sends', 0) + 1
+                    one(bundle, mtu, 'local')
+                    one(bundle, mtu + 150, 'local', security=True)
         if case['conf'] % 4 == 0:
             for plen in (30, 200):
                 bundle = make_bundle(pri_crc, pay_crc, exts, plen, seq=plen + 2000)
@@ -328,7 +340,8 @@ def run_case(case):
             pri_crc, pay_crc, exts = _conf(rng.randrange(36), rng)
             plen = rng.choice([0, 1, 10, 24, 100, 256, 1000, 3000])
             flags = rng.choice([0, 0, 0, bpv7.FLAG_NO_FRAGMENT, bpv7.FLAG_REQ_FORWARDING])
-            bundle = make_bundle(pri_crc, pay_crc, exts, plen, flags=flags, seq=rng.randrange(1000))
+            bundle = make_bundle(pri_crc, pay_crc, exts, plen, flags=flags, seq=rng.randrange(1000),
+                                 src=rng.choice(['dtn://orig/app', 'dtn://orig/app', 'ipn:7.3', 'dtn:none', 'dtn:none']))
             full = len(bpv7.encode(bundle))
             mtu = rng.choice([full - plen + rng.randint(1, 60), rng.randint(max(1, full // 4), full + 10), rng.randint(20, 120)])
             one(bundle, mtu, rng.choice(['local', 'recv']))
